@@ -79,6 +79,23 @@ fn main() {
                 q.push(types::Key::new(k, 0), types::Prio::new(k as i32));
             }
             println!("L {} start", sc);
+            if sc >= 4 {
+                // 4/5: no use after the iterator is gone at all — `reduce` keeps a yielded pair as
+                // its accumulator (a by-value argument of `fold`), the closure writes through it,
+                // and the iterator is dropped at the end of `fold` while that argument is live
+                let sum = match &mut q {
+                    queue::AnyQ::Pq(x) => x.iter_mut().reduce(|a, b| {
+                        a.1.v += b.1.v;
+                        a
+                    }).map(|a| a.1.v),
+                    queue::AnyQ::Dpq(x) => x.iter_mut().reduce(|a, b| {
+                        a.1.v += b.1.v;
+                        a
+                    }).map(|a| a.1.v),
+                };
+                println!("L {} done sum={:?}", sc, sum);
+                std::process::exit(0);
+            }
             match &mut q {
                 queue::AnyQ::Pq(x) => {
                     let mut it = x.iter_mut();
